@@ -328,7 +328,13 @@ func gMatchAck(c *Check) {
 				continue
 			}
 			ok := v.K == KConst && v.C != nil && v.C.String() == "0"
-			c.Result(ok, rule, "Progress literal Match", fnName(st.Fn), site, "fresh Progress starts with Match 0", fmt.Sprintf("Match: %s", v))
+			req := "fresh Progress starts with Match 0"
+			if !ok && v.K == KPhi {
+				// a value selected before the literal: 0, or the node's own last index when id == r.id
+				ok = ownLastIndexPhi(fi, v, lastIndex, idF)
+				req = "fresh Progress starts with Match 0, or the node's own last index when id == r.id"
+			}
+			c.Result(ok, rule, "Progress literal Match", fnName(st.Fn), site, req, fmt.Sprintf("Match: %s", v))
 		default:
 			// stores through a pointer (the per-peer reset in raft.reset): constant 0, or the
 			// node's own last index under id == r.id
@@ -360,6 +366,10 @@ func gMatchAck(c *Check) {
 				c.Result(ok, rule, "own Progress.Match = lastIndex", fnName(st.Fn), site, "only for id == r.id (the node's own log)", strings.Join(f.Describe(), "; "))
 				continue
 			}
+			if v.K == KPhi && ownLastIndexPhi(fi, v, lastIndex, idF) {
+				c.Ok(rule, "reset Progress.Match", fnName(st.Fn), site, "Match reset to 0, or to the node's own last index when id == r.id", v.Key())
+				continue
+			}
 			c.Bad(rule, "store Progress.Match", fnName(st.Fn), site, "Match is written only by MaybeUpdate, resets to 0, or own lastIndex", fmt.Sprintf("value %s", v))
 		}
 	}
@@ -382,6 +392,51 @@ func gMatchAck(c *Check) {
 }
 
 var _ = types.Typ
+
+// ownLastIndexPhi: v merges constant 0 with raftLog.lastIndex(), and the non-zero choice is taken
+// only under `<closure parameter> == r.id`.
+func ownLastIndexPhi(fi *FuncInfo, v *Sym, lastIndex *ssa.Function, idF *types.Var) bool {
+	ph, ok := v.V.(*ssa.Phi)
+	if !ok {
+		return false
+	}
+	shape := true
+	f := fi.phiBF(ph, 0, func(e ssa.Value) *BF {
+		if k, isK := e.(*ssa.Const); isK && k.Value != nil && k.Value.String() == "0" {
+			return bfConst(false)
+		}
+		if es := fi.Sym(e); es.K == KCall && es.Fn == lastIndex {
+			return bfConst(true)
+		}
+		shape = false
+		return bfConst(true)
+	})
+	if f == nil || !shape {
+		return false
+	}
+	am := map[string]*BAtom{}
+	f.atoms(am)
+	for _, a := range am {
+		if a.EqL == nil || len(a.EqL.T) != 2 || a.EqL.K != 0 {
+			continue
+		}
+		hasID, hasParam := false, false
+		for _, s := range a.EqL.S {
+			if s.K == KField && s.Fld == idF {
+				hasID = true
+			}
+			if s.K == KParam {
+				hasParam = true
+			}
+		}
+		if hasID && hasParam {
+			if ok, _ := bfImplies(f, &BF{Op: 'a', Atom: a}); ok {
+				return true
+			}
+		}
+	}
+	return false
+}
 
 // C06.F — follower-side commit clamps and other commit sources.
 func c06Follower(c *Check) {
